@@ -136,3 +136,60 @@ Definition compact_short {A} (d : A) (arr : list A) (mask : list bool) : list A 
 Lemma short_loop_refuted :
   compact_short D_UNDEFINED [D_ON_LOWER; D_ON_LOWER; P_ON_UPPER] [true; false; false] <> keep [D_ON_LOWER; D_ON_LOWER; P_ON_UPPER] [true; false; false].
 Proof. vm_compute. discriminate. Qed.
+
+(* ---- additions keep a valid descriptor valid ---- *)
+From SV Require Import BasisModel_Proofs.
+
+Lemma count_dual_app a b : count_dual (a ++ b) = count_dual a + count_dual b.
+Proof. unfold count_dual. rewrite filter_app, app_length. reflexivity. Qed.
+
+Lemma count_primal_app a b : count_primal (a ++ b) = count_primal a + count_primal b.
+Proof. unfold count_primal. rewrite filter_app, app_length. reflexivity. Qed.
+
+Lemma entries_valid_app vs1 vs2 ds1 ds2 : length vs1 = length ds1 ->
+  entries_valid (vs1 ++ vs2) (ds1 ++ ds2) = entries_valid vs1 ds1 && entries_valid vs2 ds2.
+Proof.
+  intros H. unfold entries_valid.
+  assert (E : combine (vs1 ++ vs2) (ds1 ++ ds2) = combine vs1 ds1 ++ combine vs2 ds2).
+  { revert ds1 H. induction vs1 as [|v vs1 IH]; intros [|s ds1] H; simpl in *; try discriminate; [reflexivity|]. rewrite IH by lia. reflexivity. }
+  rewrite E, forallb_app. reflexivity.
+Qed.
+
+Lemma entries_valid_map_dual vs : entries_valid vs (map dualStatus vs) = true.
+Proof. unfold entries_valid. induction vs as [|v vs IH]; simpl; [reflexivity|]. rewrite dual_entry_valid, IH. reflexivity. Qed.
+
+Lemma entries_valid_map_primal vs : entries_valid vs (map primalStatus vs) = true.
+Proof. unfold entries_valid. induction vs as [|v vs IH]; simpl; [reflexivity|]. rewrite primal_entry_valid, IH. reflexivity. Qed.
+
+(* rows are appended to the LP: the old descriptor extended by the new rows' dual statuses is valid for the new LP *)
+Theorem added_rows_valid lp newrows d :
+  isDescValid lp d = true ->
+  isDescValid (mkBlp (b_rows lp ++ newrows) (b_cols lp)) (added_rows (mkBlp (b_rows lp ++ newrows) (b_cols lp)) d) = true.
+Proof.
+  unfold isDescValid, added_rows, nRows, nCols. cbn [b_rows b_cols d_rows d_cols].
+  intros H. repeat (apply andb_true_iff in H; destruct H as [H ?]).
+  apply Nat.eqb_eq in H. apply Nat.eqb_eq in H3.
+  rewrite H. rewrite skipn_app, skipn_all, Nat.sub_diag. cbn [skipn app].
+  repeat (apply andb_true_iff; split).
+  - apply Nat.eqb_eq. rewrite !app_length, map_length. lia.
+  - apply Nat.eqb_eq. exact H3.
+  - rewrite entries_valid_app by (symmetry; exact H). rewrite H2, entries_valid_map_dual. reflexivity.
+  - exact H1.
+  - apply Nat.eqb_eq. apply Nat.eqb_eq in H0. rewrite count_primal_app, count_primal_map_dual. lia.
+Qed.
+
+Theorem added_cols_valid lp newcols d :
+  isDescValid lp d = true ->
+  isDescValid (mkBlp (b_rows lp) (b_cols lp ++ newcols)) (added_cols (mkBlp (b_rows lp) (b_cols lp ++ newcols)) d) = true.
+Proof.
+  unfold isDescValid, added_cols, nRows, nCols. cbn [b_rows b_cols d_rows d_cols].
+  intros H. repeat (apply andb_true_iff in H; destruct H as [H ?]).
+  apply Nat.eqb_eq in H. apply Nat.eqb_eq in H3.
+  rewrite H3. rewrite skipn_app, skipn_all, Nat.sub_diag. cbn [skipn app].
+  repeat (apply andb_true_iff; split).
+  - apply Nat.eqb_eq. exact H.
+  - apply Nat.eqb_eq. rewrite !app_length, map_length. lia.
+  - exact H2.
+  - rewrite entries_valid_app by (symmetry; exact H3). rewrite H1, entries_valid_map_primal. reflexivity.
+  - apply Nat.eqb_eq. apply Nat.eqb_eq in H0. rewrite count_primal_app, count_primal_map_primal, !app_length. lia.
+Qed.
